@@ -136,3 +136,79 @@ Definition obj_of (a b fa fb : nat) (t : tgt) : nat :=
   match t with TSelf => a | TOther => b | TFreshL => fa | TFreshR => fb end.
 Definition binop_body (a b fa fb : nat) (payload : nat -> list nat) (ws : list tgt) : list op :=
   map (fun kt => SetInds (obj_of a b fa fb (snd kt)) (payload (fst kt))) (combine (seq 0 (length ws)) ws).
+
+(* ---- (d) installing an array that was produced under other labels ------------
+   `t.modify(data=arr)` keeps the tensor's stored labels `dst`; an array produced by a
+   factorisation / contraction under the label order `src` therefore has to be moved by
+   the axis permutation `perm_like src dst` first (Tensor.transpose_like, which also
+   allows ONE label of `src` to be missing from `dst`: it takes the place of the one
+   label of `dst` that `src` lacks). *)
+Definition mem (i : nat) (l : list nat) : bool := existsb (Nat.eqb i) l.
+
+(* new[j] = old[perm[j]] with dst[j] = src[perm[j]] *)
+Definition perm_like (src dst : list nat) : list nat := map (fun i => index_of i src) dst.
+
+(* the label order Tensor.transpose_like(other) produces: src = self.inds, dst = other.inds *)
+Definition like_order (src dst : list nat) : option (list nat) :=
+  match filter (fun i => negb (mem i dst)) src with
+  | [] => Some dst
+  | [d] => Some (map (fun i => if mem i src then i else d) dst)
+  | _ => None                                   (* ValueError: not well defined *)
+  end.
+
+(* the array + labels after moving `data` (stored under `src`) into the order `nix` *)
+Definition install_like (src nix shape : list nat) (data : list G) : tensor G :=
+  ttranspose (perm_like src nix) src shape data.
+
+(* what is stored when the array is installed WITHOUT being moved *)
+Definition install_raw (nix shape : list nat) (data : list G) : tensor G := arr_tensor nix shape data.
+
+Definition natlist_eqb (a b : list nat) : bool := if list_eq_dec Nat.eq_dec a b then true else false.
+
+(* ---- (e) ownership discipline of the structured-network sum ------------------
+   tensor_network_ag_sum(tna, tnb, negate, inplace) - behind `a + b`, `a - b`, `a += b`,
+   `a -= b`, add_MPS/add_MPO/add_PEPS/add_PEPO:
+       tna = tna if inplace else tna.copy()
+       for each site:  tb = tnb[site].reindex(map)      (plain spelling: ALWAYS a private copy)
+                       if negate: tb.negate_(); negate = False
+                       ta.direct_product_(tb, ...)
+   The model records the owner of every tensor object written, in program order. *)
+Inductive owner := OwnA | OwnB | OwnRes | OwnTemp.
+
+Definition owner_eqb (a b : owner) : bool :=
+  match a, b with OwnA, OwnA | OwnB, OwnB | OwnRes, OwnRes | OwnTemp, OwnTemp => true | _, _ => false end.
+Fixpoint owners_eqb (a b : list owner) : bool :=
+  match a, b with
+  | [], [] => true
+  | x :: a', y :: b' => owner_eqb x y && owners_eqb a' b'
+  | _, _ => false
+  end.
+
+(* `copy_b`: does the per-site relabelling hand back a private copy (the source: always; "skip it when there is
+   nothing to relabel" is the slip) *)
+Fixpoint agsum_loop (copy_b inplace : bool) (nsites : nat) (negate : bool) : list owner :=
+  match nsites with
+  | 0 => []
+  | S n => let tb := if copy_b then OwnTemp else OwnB in
+           (if copy_b then [OwnTemp] else [])                  (* reindex writes the labels of its copy *)
+           ++ (if negate then [tb] else [])                    (* tb.negate_() *)
+           ++ [if inplace then OwnA else OwnRes]               (* ta.direct_product_(tb) *)
+           ++ agsum_loop copy_b inplace n false
+  end.
+
+Definition agsum_writes := agsum_loop true.
+
+(* what a caller can see: writes to objects that outlive the call *)
+Definition visible (o : owner) : bool := match o with OwnTemp => false | _ => true end.
+Definition is_operand (inplace : bool) (o : owner) : bool :=
+  match o with OwnB => true | OwnA => negb inplace | _ => false end.
+
+(* as heap operations: site k of the operands / result / temporaries are the objects a k, b k, r k, t k *)
+Definition agsum_obj (a b r t : nat -> nat) (k : nat) (o : owner) : nat :=
+  match o with OwnA => a k | OwnB => b k | OwnRes => r k | OwnTemp => t k end.
+Fixpoint agsum_body (a b r t : nat -> nat) (payload : nat -> list nat) (k : nat) (ws : list owner) : list op :=
+  match ws with
+  | [] => []
+  | o :: ws' => SetInds (agsum_obj a b r t k o) (payload k)
+                :: agsum_body a b r t payload (match o with OwnA | OwnRes => S k | _ => k end) ws'
+  end.
